@@ -46,6 +46,7 @@ var facts = []fact{
 	{"bwGiga", "Nat", "pkg/k8s/k8s.go", "", "const GIGABYTE", "unit multiplier"},
 	{"bwTera", "Nat", "pkg/k8s/k8s.go", "", "const TERABYTE", "unit multiplier"},
 	{"bwNoLetterGuard", "Nat", "pkg/k8s/k8s.go", "parseBandwidth", "guard i < 0", "1 iff the 'no unit letter' index is guarded before slicing"},
+	{"filterRechecksLen", "Nat", "daemon/daemon.go", "filterENINotFound", "forcond j < len(podResources[i].Resources)", "1 iff the loop that removes stale items in place re-reads the slice length on every iteration"},
 	{"bwUnitsT", "CharLists", "pkg/k8s/k8s.go", "parseBandwidth", "caselit 0", "unit spellings"},
 	{"bwUnitsG", "CharLists", "pkg/k8s/k8s.go", "parseBandwidth", "caselit 1", "unit spellings"},
 	{"bwUnitsM", "CharLists", "pkg/k8s/k8s.go", "parseBandwidth", "caselit 2", "unit spellings"},
@@ -246,6 +247,20 @@ func (e *env) locate(root ast.Node, sel string) (int64, string, error) {
 			if is, ok := n.(*ast.IfStmt); ok {
 				var sb strings.Builder
 				printer.Fprint(&sb, e.fset, is.Cond)
+				if sb.String() == want {
+					found = 1
+				}
+			}
+			return true
+		})
+		return found, "", nil
+	case "forcond": // forcond <text>: 1 if a for-statement whose condition prints as <text> exists in the function, else 0
+		want := strings.Join(f[1:], " ")
+		found := int64(0)
+		ast.Inspect(root, func(n ast.Node) bool {
+			if fs, ok := n.(*ast.ForStmt); ok && fs.Cond != nil {
+				var sb strings.Builder
+				printer.Fprint(&sb, e.fset, fs.Cond)
 				if sb.String() == want {
 					found = 1
 				}
